@@ -110,6 +110,7 @@ def writer_cases(scripts, tier, rnd):
             u = UNITS[(i + 2 * t) % len(UNITS)]
             ws = [(k * u if op == "w" else 0 if op == "e" else -1) for (op, k) in sc]
             cases.append({"bin": "vh_part", "mode": "writer", "target": target, "opts": opts, "script": ws,
+                          "sink_caps": [[], [], [], [7, 0], [], [1 << 14]][(i + t) % 6],
                           "data": {"gen": cls if cls != "dense" else "dense", "len": units * u, "seed": 1000 + i, "arch": "x86"},
                           "fam": target, "unit": u, "si": i})
         for t, arch in enumerate(ARCHS + ["delta"]):
@@ -118,7 +119,7 @@ def writer_cases(scripts, tier, rnd):
             u = UNITS[(i + t) % len(UNITS)]
             ws = [(k * u if op == "w" else 0 if op == "e" else -1) for (op, k) in sc]
             c = {"bin": "vh_filter", "kind": "delta" if arch == "delta" else "bcj", "arch": "" if arch == "delta" else arch,
-                 "start": 0, "dist": 1 + (i * 7) % 256, "writes": ws,
+                 "start": 0, "dist": 1 + (i * 7) % 256, "writes": ws, "sink_caps": [[], [], [1, 0], [], [3], [4096, 1]][(i + 2 * t) % 6],
                  "data": {"gen": "dense", "len": units * u, "seed": 2000 + i, "arch": "x86" if arch == "delta" else arch},
                  "fam": "delta_writer" if arch == "delta" else "bcj_writer", "unit": u, "si": i}
             cases.append(c)
@@ -195,13 +196,13 @@ def judge_writer(ctx, c, r, classes):
     fam = c["fam"]
     ws = c.get("script", c.get("writes", []))
     cls = script_class(ws)
-    sig = {"family": fam, "class": cls}
+    sig = {"family": fam, "class": cls, "sink": "short" if any(x > 0 for x in c.get("sink_caps", [])) else "full"}
     if c["bin"] == "vh_part":
         sig["filter"] = filt_of(c["opts"])
         if c["data"]["len"] == 0:
             sig["class"] = "empty_input"
     rep = {"case": strip(c), "bin": c["bin"]}
-    feat = (fam, sig.get("filter", ""), cls, "e" if has(ws, 0) else "", "f" if has(ws, -1) else "", c.get("unit"))
+    feat = (fam, sig.get("filter", ""), cls, "e" if has(ws, 0) else "", "f" if has(ws, -1) else "", c.get("unit"), sig["sink"])
     if r.get("panic"):
         ctx.violation(f"{fam}: panic under call script {ws}: {r['panic']}", dict(sig, outcome="panic"), rep)
         return
@@ -424,8 +425,8 @@ def run(tier, replay=None):
     fres = run_all(fcases)
     fruns = collections.defaultdict(list)
     for c, r in zip(fcases, fres):
+        judge_writer(ctx, c, r, wclasses)
         if r.get("panic") or r.get("write") != "ok":
-            judge_writer(ctx, c, r, wclasses)
             continue
         evs = [dlib.reset_event("writer", r)] + dlib.norm_events(r["wevents"]) + \
               [{"op": "End", "n": 0, "ret": 0, "len": 0, "heads": [], "dist": 0, "eq": 1 if r.get("enc_eq_oneshot") else 0}]
